@@ -3,6 +3,7 @@ package props
 import (
 	"fmt"
 	"go/token"
+	"strings"
 
 	"aurora-verif/checker/core"
 
@@ -233,6 +234,7 @@ func c08(r *core.Run) {
 	okD := split(dec, dec.Params[0], "pkg/encryption/store.newSpanEncryption", "pkg/encryption/store.newDataEncryption", "(pkg/encryption.Decrypter).Decrypt")
 	r.Check("C08.P1", "C08.P1@pkg/encryption+store#span = first 8 bytes, data = rest, on both sides", enc.Pos(), okE && okD,
 		"both sides treat the first 8 bytes as span and the rest as data, each with its own cipher", "the span/data split or cipher assignment differs between EncryptChunk and store.decrypt")
+	c08Transform(r)
 }
 
 func c09(r *core.Run) {
@@ -419,6 +421,27 @@ func c09(r *core.Run) {
 			}
 			r.Check("C09.E1", core.Key("C09.E1", mf, "callback error returned for "+what), c.Pos(), errReturnedGeneric(cl, c),
 				"the manifest walker returns the callback's error", "the manifest walker drops the error the callback returned for a "+what)
+			// G2: the report is guarded by nothing but "there is something to report": the
+			// walk error, node != nil, Reference() != nil / IsValueType() && len(Entry()) > 0,
+			// the empty-address workaround, and the previous report's error
+			var extra []string
+			for _, b := range cl.Blocks {
+				ifi, ok := b.Instrs[len(b.Instrs)-1].(*ssa.If)
+				if !ok || !b.Dominates(c.Block()) || b == c.Block() {
+					continue
+				}
+				r0 := core.ReachBlocks([]*ssa.BasicBlock{b.Succs[0]}, nil)[c.Block()] || b.Succs[0] == c.Block()
+				r1 := core.ReachBlocks([]*ssa.BasicBlock{b.Succs[1]}, nil)[c.Block()] || b.Succs[1] == c.Block()
+				if r0 == r1 {
+					continue // not a guard of the report
+				}
+				base, _ := core.Normalize(ifi.Cond)
+				if !allowedWalkerGuard(base) {
+					extra = append(extra, w.Pos(ifi.Cond.Pos()))
+				}
+			}
+			r.Check("C09.G2", core.Key("C09.G2", mf, what+" reported whenever present"), c.Pos(), len(extra) == 0,
+				"the "+what+" is handed to the callback under no condition other than its presence", "the report of the "+what+" depends on an additional condition ("+strings.Join(extra, ", ")+"): some manifest nodes' addresses (e.g. a file whose path is a prefix of another path) are never reported, so pin/unpin/delete and the pyramid miss chunks")
 		}
 	}
 	r.Floor("C09.E1", "callback invocations in the manifest walker", n, 2)
